@@ -95,7 +95,8 @@ type c15Case struct {
 	MaxMs       int  `json:"max_ms"`
 	// StaleEOF: a Read that was blocked when its session was closed locally returns EOF, and
 	// only once the transport has been opened again (or 30 ms later)
-	StaleEOF bool `json:"stale_eof,omitempty"`
+	StaleEOF     bool `json:"stale_eof,omitempty"`
+	StaleEOFLong bool `json:"stale_eof_long,omitempty"`
 	// ReopenedDelayMs: the monitor's OnReopenSucceeded callback takes that long
 	ReopenedDelayMs int       `json:"reopened_delay_ms,omitempty"`
 	Steps           []c15Step `json:"steps"`
@@ -244,6 +245,11 @@ func execC15(c c15Case) *ev.Failure {
 func execC15Inner(c c15Case) *ev.Failure {
 	s := &c15Session{c: c, st: newScriptT()}
 	s.st.staleEOF = c.StaleEOF
+	s.st.staleEOFWait = 30 * time.Millisecond
+	if c.StaleEOFLong {
+		// longer than Close is prepared to wait for the read loop
+		s.st.staleEOFWait = 400 * time.Millisecond
+	}
 	s.tr = frugal.NewAdapterTransport(s.st)
 	if c.Monitor {
 		s.mon = &recMonitor{base: &frugal.BaseFTransportMonitor{MaxReopenAttempts: c.MaxAttempts,
@@ -495,6 +501,7 @@ func genC15(t *rapid.T) c15Case {
 	c.InitialMs = rapid.IntRange(1, 3).Draw(t, "initial")
 	c.MaxMs = rapid.IntRange(c.InitialMs, 6).Draw(t, "maxwait")
 	c.StaleEOF = rapid.IntRange(0, 2).Draw(t, "staleeof") == 0
+	c.StaleEOFLong = c.StaleEOF && rapid.IntRange(0, 3).Draw(t, "staleeof.long") == 0
 	if c.Monitor && rapid.IntRange(0, 2).Draw(t, "slowcallback") == 0 {
 		c.ReopenedDelayMs = rapid.IntRange(5, 30).Draw(t, "callbackms")
 	}
@@ -526,6 +533,9 @@ func classifyC15(c c15Case) ev.Class {
 	}
 	if c.StaleEOF {
 		labels = append(labels, "stale-eof-after-local-close")
+	}
+	if c.StaleEOFLong {
+		labels = append(labels, "stale-eof-later-than-close-waits")
 	}
 	if c.ReopenedDelayMs > 0 {
 		labels = append(labels, "slow-reopen-callback")
